@@ -15,6 +15,8 @@ theorem schedStep_log (w : World) : (schedStep w).log = w.log := by
   unfold schedStep; split; rfl; split; rfl; split <;> rfl
 theorem schedStep_avail (w : World) : (schedStep w).seccompAvailable = w.seccompAvailable := by
   unfold schedStep; split; rfl; split; rfl; split <;> rfl
+theorem schedStep_nnpAvail (w : World) : (schedStep w).nnpAvailable = w.nnpAvailable := by
+  unfold schedStep; split; rfl; split; rfl; split <;> rfl
 theorem schedStep_locked (w : World) (h : w.lockCount ≠ 0) : schedStep w = w := by
   unfold schedStep; simp [h]
 theorem schedStep_cur_live (w : World) (h : w.cur ∈ w.live) : (schedStep w).cur ∈ (schedStep w).live := by
@@ -25,12 +27,18 @@ theorem schedStep_cur_live (w : World) (h : w.cur ∈ w.live) : (schedStep w).cu
     · exact h
     · split <;> simp_all
 
-/-- what a `prctl(PR_SET_NO_NEW_PRIVS, 1, 0, 0, 0)` does -/
-theorem sysPrctl_nnp (w : World) :
+/-- what a `prctl(PR_SET_NO_NEW_PRIVS, 1, 0, 0, 0)` does on a kernel that knows the option -/
+theorem sysPrctl_nnp (w : World) (h : w.nnpAvailable = true) :
     sysPrctl 38 1 0 0 0 w =
       (0, 0, ({ schedStep w with log := .prctl (schedStep w).cur 38 1 0 0 0 :: w.log } : World).upd (schedStep w).cur
         { (schedStep w).thr (schedStep w).cur with nnp := true }) := by
-  simp [sysPrctl, PR_SET_NO_NEW_PRIVS, schedStep_log]
+  simp [sysPrctl, PR_SET_NO_NEW_PRIVS, schedStep_log, schedStep_nnpAvail, h]
+
+/-- … and on one that does not: EINVAL, and only the call log changes -/
+theorem sysPrctl_nnp_fault (w : World) (h : w.nnpAvailable = false) :
+    sysPrctl 38 1 0 0 0 w =
+      (0, EINVAL, { schedStep w with log := .prctl (schedStep w).cur 38 1 0 0 0 :: w.log }) := by
+  simp [sysPrctl, PR_SET_NO_NEW_PRIVS, schedStep_log, schedStep_nnpAvail, h]
 
 /-- the outcome classes of `seccomp(SECCOMP_SET_MODE_FILTER, flags, uargs)` -/
 inductive FilterOutcome (flags : Nat) (uargs : Option Prog) (w : World) : Nat × Nat × World → Prop
@@ -94,21 +102,13 @@ theorem sysSeccomp_filter (flags : Nat) (uargs : Option Prog) (w : World) :
     | none => exact .declined EFAULT (by decide) (.inr (.inl rfl))
     | some p =>
       simp only
-      by_cases h2 : (!p.ok) = true ∨ p.len = 0 ∨ p.len > BPF_MAXINSNS
+      by_cases h2 : p.len = 0 ∨ p.len > BPF_MAXINSNS
       · rw [if_pos h2]
         refine .declined EINVAL (by decide) (.inr (.inr (.inl ⟨p, rfl, ?_⟩)))
-        rcases h2 with h | h | h
-        · exact .inl (by simpa using h)
+        rcases h2 with h | h
         · exact .inr (.inl h)
         · exact .inr (.inr h)
       · rw [if_neg h2]
-        have hok : p.ok = true ∧ p.len ≠ 0 ∧ p.len ≤ BPF_MAXINSNS := by
-          refine ⟨?_, ?_, ?_⟩
-          · cases hp : p.ok with
-            | true => rfl
-            | false => exact absurd (.inl (by simp [hp])) h2
-          · intro h; exact h2 (.inr (.inl h))
-          · exact Nat.le_of_not_gt (fun h => h2 (.inr (.inr h)))
         by_cases h3 : (!(((schedStep w).thr (schedStep w).cur).nnp || (schedStep w).privileged)) = true
         · rw [if_pos h3]
           refine .declined EACCES (by decide) (.inr (.inr (.inr (.inl ?_))))
@@ -118,6 +118,14 @@ theorem sysSeccomp_filter (flags : Nat) (uargs : Option Prog) (w : World) :
           have hpriv : ((schedStep w).thr (schedStep w).cur).nnp = true ∨ w.privileged = true := by
             simp only [Bool.not_eq_true', Bool.not_eq_false, Bool.or_eq_true, schedStep_priv] at h3
             exact h3
+          by_cases h5 : (!p.ok) = true
+          · rw [if_pos h5]
+            exact .declined EINVAL (by decide) (.inr (.inr (.inl ⟨p, rfl, .inl (by simpa using h5)⟩)))
+          rw [if_neg h5]
+          have hok : p.ok = true ∧ p.len ≠ 0 ∧ p.len ≤ BPF_MAXINSNS := by
+            refine ⟨by simpa using h5, ?_, ?_⟩
+            · intro h; exact h2 (.inl h)
+            · exact Nat.le_of_not_gt (fun h => h2 (.inr h))
           by_cases h4 : flags &&& FLAG_TSYNC ≠ 0
           · rw [if_pos h4]
             split
